@@ -92,8 +92,15 @@ def judge(w, loaded, model, contracts, call, meta) -> None:
     if any(k[0] == "cond" and keys.count(k) > 1 for k in keys):
         w.count("cases_with_lambda_reevaluation_or_repetition")
     case = {"prog": model.prog, "call": call, "meta": meta}
+    repeated = None
+    if discs:
+        # mechanism: a contract inherited along several paths (diamond) is listed - and evaluated - once per path
+        required = [e[:2] for e in exp.events if len(e) == 2]
+        if runner.dedup([k for k in keys if k[0] != "error"]) == runner.dedup([k for k in required if k[0] != "error"]) and \
+                len(keys) > len(runner.dedup(keys)):
+            repeated = "C16/contract-inherited-along-several-paths-evaluated-repeatedly"
     for d in discs:
-        w.violation(classify(d, exp, obs), d.what, case, {"expected": repr(exp), "observed": obs.describe()})
+        w.violation(repeated or classify(d, exp, obs), d.what, case, {"expected": repr(exp), "observed": obs.describe()})
     # at-most-once clause (single inheritance path): no condition id more than once, except the documented re-evaluation
     if not exp.has_dups and not discs:
         pass
@@ -160,8 +167,87 @@ def run_spec(w, spec, meta_base) -> None:
         loaded.unload()
 
 
+CTOR_CHAIN_SOURCE = '''
+import icontract
+
+
+@icontract.invariant(lambda self: HUB.inv("root_outer", self))
+@icontract.invariant(lambda self: HUB.inv("root_inner", self))
+class Root(icontract.DBC):
+    """No constructor of its own: its __new__ carries the invariant check."""
+
+    def get(self):
+        return HUB.body("Root_get", {"self": self})
+
+
+@icontract.invariant(lambda self: HUB.inv("mid", self))
+class Mid(Root):
+    @icontract.require(lambda n: HUB.cond("mid_pre", {"n": n}), error=HUB.errinst("mid_pre"))
+    @icontract.ensure(lambda self: HUB.cond("mid_post", {"self": self}), error=HUB.errinst("mid_post"))
+    def __init__(self, n=1):
+        HUB.body("Mid___init__", {"self": self})
+        self.n = n
+
+
+@icontract.invariant(lambda self: HUB.inv("leaf", self))
+class Leaf(Mid):
+    """Inherits the constructor."""
+
+
+class LeafWithInit(Mid):
+    def __init__(self, n=2):
+        HUB.body("LeafWithInit___init__", {"self": self})
+        super().__init__(n)
+'''
+
+
+def run_ctor_chain(w) -> None:
+    """Phase order of a construction when the root has no constructor (wrapped __new__) and a class in the middle defines one."""
+    loaded = prog.load_source(CTOR_CHAIN_SOURCE, w.scratch())
+    mod, hub = loaded.module, loaded.hub
+    try:
+        want = {
+            "Root": [("inv", "root_inner"), ("inv", "root_outer")],
+            "Mid": [("cond", "mid_pre"), ("body", "Mid___init__"), ("cond", "mid_post"), ("inv", "root_inner"), ("inv", "root_outer"), ("inv", "mid")],
+            "Leaf": [("cond", "mid_pre"), ("body", "Mid___init__"), ("cond", "mid_post"), ("inv", "root_inner"), ("inv", "root_outer"), ("inv", "mid"),
+                     ("inv", "leaf")],
+            "LeafWithInit": [("body", "LeafWithInit___init__"), ("cond", "mid_pre"), ("body", "Mid___init__"), ("cond", "mid_post"),
+                             ("inv", "root_inner"), ("inv", "root_outer"), ("inv", "mid")],
+        }
+        for cname, expected in want.items():
+            for falsy in (None, "root_inner", "mid", "mid_post"):
+                if falsy is not None and not any(i == falsy for _k, i in expected):
+                    continue
+                hub.reset()
+                hub.truth = {falsy: False} if falsy else {}
+                w.count("calls")
+                w.count("ctor_chain_constructions")
+                w.case(("ctor-chain", cname, falsy))
+                try:
+                    getattr(mod, cname)()
+                    outcome = "return"
+                except BaseException as err:  # pylint: disable=broad-except
+                    outcome = "raise " + ("errinst:" + falsy if falsy and err is hub.errinsts.get(falsy) else type(err).__name__)
+                got = [(e.kind, e.id) for e in hub.events]
+                exp = list(expected)
+                if falsy is not None:
+                    exp = exp[: exp.index(next(e for e in exp if e[1] == falsy)) + 1]
+                w.count("events_compared", len(got))
+                if falsy is not None and got == exp + [exp[-1]]:
+                    got = got[:-1]  # the documented re-evaluation of the violated lambda for its message
+                if got != exp:
+                    w.violation("C16/order-differs", "construction of {} ({} falsy): events {} but the phases are {}".format(cname, falsy, got, exp),
+                                {"ctor_chain": cname, "falsy": falsy})
+                elif falsy is not None and not outcome.startswith("raise"):
+                    w.violation("C16/wrong-contract-reported", "construction of {} with {} falsy returned".format(cname, falsy), {"ctor_chain": cname})
+    finally:
+        loaded.unload()
+
+
 def run(w) -> None:
     w.exhaustive = False
+    if w.shard == 0:
+        run_ctor_chain(w)
     for shape, kind, is_async, spec in hierarchies(w):
         w.count("programs")
         run_spec(w, spec, (str(shape), kind, is_async))
@@ -171,6 +257,9 @@ def run(w) -> None:
 
 
 def replay(case, w) -> None:
+    if "ctor_chain" in case:
+        run_ctor_chain(w)
+        return
     spec = case["prog"]
     model = Model(spec)
     contracts = runner.index_contracts(spec)
